@@ -84,12 +84,55 @@ def parseCfg : List String → CacheConfig → Option CacheConfig
     | ["ta", _] => parseCfg ts c   -- trust anchors of the block: harness only
     | _ => none
 
+/-- `h` / `hold` / `hq QNAME`: one validation through the handle.  `h`: the cache as it is; `hold`: the model of
+the cache before the repairs 411522f / a831deb (regression only); `hq QNAME`: as `h`, but the RRset arrives in
+the response to the original query `QNAME DNSKEY` -/
+def hStep (s : State) (op : String) (origTok : Option String) (now inst ck keys sg name ty orcs : String)
+    (recs : List String) : State × String :=
+    let r : Option (State × String) := do
+      let orig ← match origTok with
+        | some q => (parseName q).map some
+        | none => some none
+      let clock ← now.toNat?; let inst ← inst.toNat?; let ck ← parseHex ck
+      -- KEYS = `!`: every DNSKEY lookup fails (upstream error)
+      let netError := keys == "!"
+      let keys ← if netError then some [] else parseKeys keys
+      -- all RRSIGs of the RRset in message order: `SIG|SIG|…`; oracle tables: one `ORC|ORC|…` (per key)
+      -- for each RRSIG, separated by `,`
+      let sigs ← (sg.splitOn "|").mapM parseSig
+      let name ← parseName name; let ty ← ty.toNat?
+      let orcs ← if orcs == "-" then some (sigs.map fun _ => [])
+                 else (orcs.splitOn ",").mapM (fun o => (o.splitOn "|").mapM parseOrc)
+      let recs ← recs.mapM C05.parseRecord
+      let ks := keys.map (·.1)
+      let oracle : SigOracle := fun k tbs sigBytes =>
+        (sigs.zip orcs).any fun (sj, os) =>
+          sj.sig == sigBytes && (ks.zip os).any (fun (k', o) => k' == k && o == some tbs)
+      let m : MultiRequest := { ck, dnskeys := keys, rrsigs := sigs, keyName := name.toLowercase,
+                                keyType := ty, records := recs, clock, inst, netError,
+                                origDnskey := orig }
+      let (req, idx0) := m.toRequest
+      let (c', v, fresh) :=
+        if op == "h" then validate oracle s.cfg s.cache req else validatePreFix oracle s.cfg s.cache req
+      let idx := if v.isOk then idx0 else none
+      let ttls := " ".intercalate (recs.map fun r => toString (updatedTtl v r.ttl))
+      let sigOut := " ".intercalate ((List.range sigs.length).zip sigs |>.map fun (j, sj) =>
+        if idx == some j then s!"{showProof v.proof} {updatedTtl v sj.ttl}" else s!"N {sj.ttl}")
+      let dev2 := !fresh && v.proof == .secure && s.past.any (fun r' => sameKeyOtherRdata r' req)
+      pure ({ s with cache := c', past := if fresh then req :: s.past else s.past },
+        s!"{if idx0.isNone then "nolookup" else if fresh then "fresh" else "cached"} {if recs.isEmpty then "-" else showProof v.proof} {ttls} sig {sigOut} dev={showBool (outlivesSignature req v fresh)}{showBool dev2}")
+    r.getD (s, "bad-op")
+
 def stepCore (s : State) (toks : List String) : State × String :=
   match toks with
   | ["serial", a, b] =>
     match a.toNat?, b.toNat? with
     | some a, some b =>
       (s, match serialCmp a b with | some o => ordStr o | none => "none")
+    | _, _ => (s, "bad-op")
+  | ["sadd", a, b] =>
+    match a.toNat?, b.toNat? with
+    | some a, some b => (s, toString ((a + b) % 4294967296))   -- `impl Add for SerialNumber`: wrapping
     | _, _ => (s, "bad-op")
   | ["tag", h] =>
     match parseHex h with
@@ -115,37 +158,11 @@ def stepCore (s : State) (toks : List String) : State × String :=
     | some c => ({ cache := [], cfg := c, past := [] }, "begin")
     | none => (s, "bad-op")
   | ["end"] => ({}, "end")
+  | "hq" :: q :: now :: inst :: ck :: keys :: sg :: name :: ty :: orcs :: recs =>
+    hStep s "h" (some q) now inst ck keys sg name ty orcs recs
   | op :: now :: inst :: ck :: keys :: sg :: name :: ty :: orcs :: recs =>
-    -- `h`: the cache as it is; `hold`: the model of the cache before the repairs 411522f / a831deb
-    -- (regression only)
     if op != "h" && op != "hold" then (s, "bad-op") else
-    let r : Option (State × String) := do
-      let clock ← now.toNat?; let inst ← inst.toNat?; let ck ← parseHex ck
-      let keys ← parseKeys keys
-      -- all RRSIGs of the RRset in message order: `SIG|SIG|…`; oracle tables: one `ORC|ORC|…` (per key)
-      -- for each RRSIG, separated by `,`
-      let sigs ← (sg.splitOn "|").mapM parseSig
-      let name ← parseName name; let ty ← ty.toNat?
-      let orcs ← if orcs == "-" then some (sigs.map fun _ => [])
-                 else (orcs.splitOn ",").mapM (fun o => (o.splitOn "|").mapM parseOrc)
-      let recs ← recs.mapM C05.parseRecord
-      let ks := keys.map (·.1)
-      let oracle : SigOracle := fun k tbs sigBytes =>
-        (sigs.zip orcs).any fun (sj, os) =>
-          sj.sig == sigBytes && (ks.zip os).any (fun (k', o) => k' == k && o == some tbs)
-      let m : MultiRequest := { ck, dnskeys := keys, rrsigs := sigs, keyName := name.toLowercase,
-                                keyType := ty, records := recs, clock, inst }
-      let (req, idx0) := m.toRequest
-      let (c', v, fresh) :=
-        if op == "h" then validate oracle s.cfg s.cache req else validatePreFix oracle s.cfg s.cache req
-      let idx := if v.isOk then idx0 else none
-      let ttls := " ".intercalate (recs.map fun r => toString (updatedTtl v r.ttl))
-      let sigOut := " ".intercalate ((List.range sigs.length).zip sigs |>.map fun (j, sj) =>
-        if idx == some j then s!"{showProof v.proof} {updatedTtl v sj.ttl}" else s!"N {sj.ttl}")
-      let dev2 := !fresh && v.proof == .secure && s.past.any (fun r' => sameKeyOtherRdata r' req)
-      pure ({ s with cache := c', past := if fresh then req :: s.past else s.past },
-        s!"{if idx0.isNone then "nolookup" else if fresh then "fresh" else "cached"} {showProof v.proof} {ttls} sig {sigOut} dev={showBool (outlivesSignature req v fresh)}{showBool dev2}")
-    r.getD (s, "bad-op")
+    hStep s op none now inst ck keys sg name ty orcs recs
   | _ => (s, "bad-op")
 
 /-- `vkx EXPECT …` is an external vector: a `vk` line whose expectation only the harness looks at -/
